@@ -42,6 +42,7 @@ mod timecmd;
 mod pickercmd;
 mod evalcmd;
 mod searchcmd;
+mod nodescmd;
 mod keypairs;
 mod orderingcmd;
 
@@ -75,6 +76,7 @@ fn main() {
         "picker" => pickercmd::main(rest),
         "eval" => evalcmd::main(rest),
         "search" => searchcmd::main(rest),
+        "nodes" => nodescmd::main(rest),
         "keypairs" => keypairs::main(rest),
         "ordering" => orderingcmd::main(rest),
         other => {
